@@ -10,6 +10,9 @@ GEN = os.path.join(LEAN, "RSVerif", "Generated")
 HARNESS = os.path.join(VERIF, "go", "harness")
 FACTGEN = os.path.join(VERIF, "go", "factgen")
 EVID = os.path.join(VERIF, "evidence")
+if REPO != "/repo":
+    # an experiment against another tree (VERIF_REPO=…): its evidence and replays must not overwrite the registered ones
+    EVID = os.path.join(VERIF, "build", "evidence-" + hashlib.sha1(REPO.encode()).hexdigest()[:8])
 ALLOWED_AXIOMS = {"propext", "Classical.choice", "Quot.sound"}
 
 GOENV = dict(os.environ, GOFLAGS="-mod=mod", GOPROXY="off", GOSUMDB="off", GOTOOLCHAIN="local",
